@@ -337,6 +337,7 @@ class BytesModel:
 
 def install(reg: Any = REGISTRY) -> None:
     reg.models["bytes"] = BytesModel()
+    reg.models["base:UserList"] = UserListModel()
     od = ODModel()
     reg.models["od"] = od
     reg.models["ext:collections.OrderedDict"] = od
@@ -344,3 +345,56 @@ def install(reg: Any = REGISTRY) -> None:
     reg.models["deque"] = dq
     reg.models["ext:collections.deque"] = dq
     reg.models["str"] = StrModel()
+
+
+# --------------------------------------------------------------------- UserList
+class UserListModel:
+    """A-USERLIST: collections.UserList as an object with a `data` list (append/extend/clear/len/bool/iteration)."""
+    name = "A-USERLIST collections.UserList"
+
+    def init_fields(self, eng: Any, st: State, r: Ref) -> State:
+        st, lst = eng.alloc(st, "list", None, items=())
+        return st.heap_set(r, "data", lst)
+
+    def _data(self, st: State, r: Ref) -> Ref:
+        d = st.obj(r).get("data", None)
+        if not isinstance(d, Ref):
+            raise Unsupported("UserList object without a data list")
+        return d
+
+    def length(self, eng: Any, st: State, r: Ref) -> Any:
+        return eng.list_len(st, self._data(st, r))
+
+    def truth(self, eng: Any, st: State, r: Ref) -> Any:
+        n = self.length(eng, st, r)
+        return n > 0
+
+    def getattr(self, eng: Any, st: State, r: Ref, attr: str, node: Any, ctx: Any):
+        if attr in ("append", "extend", "clear", "__init__", "copy", "insert", "pop"):
+            yield st, BuiltinMethod(r, attr)
+            return
+        yield st, Raised(ExcVal("AttributeError", attr))
+
+    def call_method(self, eng: Any, st: State, r: Ref, name: str, args: list, kwargs: dict, node: Any, ctx: Any):
+        if name == "__init__":
+            init = args[0] if args else kwargs.get("initlist")
+            if isinstance(init, Opt):
+                for st1, isn in eng.branch(st, init.isnone, f"L{_line(node)}initlist"):
+                    yield from self.call_method(eng, st1, r, "__init__", [None if isn else init.val], {}, node, ctx)
+                return
+            st, lst = eng.alloc(st, "list", None, items=())
+            st = st.heap_set(r, "data", lst)
+            if init is None:
+                yield st, None
+                return
+            for st1, items in eng.iterate_all(st, init, node):
+                if isinstance(items, Raised):
+                    yield st1, items
+                else:
+                    yield st1.heap_set(lst, "items", tuple(items)), None
+            return
+        d = self._data(st, r)
+        yield from eng.list_method(st, d, name, args, kwargs, node, ctx)
+
+    def iterate_all(self, eng: Any, st: State, r: Ref, node: Any):
+        yield st, list(st.obj(self._data(st, r)).get("items"))
